@@ -1158,6 +1158,21 @@ func c19R3(c *Ctx) {
 			if one, ok := constInt(bo.Y); ok && one == 1 {
 				if ph, ok := bo.X.(*ssa.Phi); ok && !strings.Contains(ph.Comment, "range") {
 					cntOK, cntPhi = true, ph
+					// every active node counts, whatever it holds: an idle (freshly joined, drained) node
+					// left out of the divisor inflates the average and the others shed too much or not at all
+					for _, f := range facts {
+						if isActiveFact([]Fact{f}) {
+							continue
+						}
+						// (loop bookkeeping: the outer range continues, the inner range over the endpoints is exhausted)
+						if ex, ok := f.V.(*ssa.Extract); ok && ex.Index == 0 {
+							if _, isNext := ex.Tuple.(*ssa.Next); isNext {
+								continue
+							}
+						}
+						c.check(false, "C19.R3", fnName(avg)+"/every-active-node-counted", bo.Pos(), "the node counter advances for every active node",
+							"an active node is counted only under the extra condition "+f.String()+": the divisor is not the number of active nodes")
+					}
 				}
 				return
 			}
